@@ -123,6 +123,91 @@ theorem graphOk_bindings_of_switched_value {g : Graph} (h : graphOk g = true) (v
   obtain ⟨m', hm', hd⟩ := graphOk_sound h v m post r hp' ha hr
   exact hmid m' (by simp [hm']) hd
 
+/-! ### the second checker: a value handed to a call is consumed -/
+
+theorem lt_of_uses {g : Graph} {i v : Nat} (h : v ∈ (node g i).uses) : i < g.size := by
+  by_cases hi : i < g.size
+  · exact hi
+  · rw [node_default hi] at h
+    simp at h
+
+theorem lt_of_hands {g : Graph} {i v : Nat} (h : v ∈ (node g i).hands) : i < g.size := by
+  by_cases hi : i < g.size
+  · exact hi
+  · rw [node_default hi] at h
+    simp at h
+
+/-- walking inside a closed set: a path that starts in `S` and passes no barrier node (except
+    possibly at its last node) stays in `S` -/
+theorem walk_closedP {g : Graph} {bar : Nat → Bool} {S : NSet} (hc : closedP g bar S = true) :
+    ∀ (l : List Nat) (x : Nat), S.has x = true → IsPath g (x :: l) →
+      (∀ m ∈ (x :: l).dropLast, bar m = false) → ∀ y ∈ x :: l, S.has y = true := by
+  intro l
+  induction l with
+  | nil => intro x hx _ _ y hy; simp at hy; subst hy; exact hx
+  | cons z l ih =>
+    intro x hx hp hd y hy
+    have hxz : z ∈ (node g x).succ := hp.1
+    have hnd : bar x = false := hd x (by simp [List.dropLast])
+    have hzS : S.has z = true := by
+      have := List.all_eq_true.1 hc x (List.mem_range.2 (lt_of_succ hxz))
+      simp only [Bool.or_eq_true, Bool.not_eq_true', List.all_eq_true] at this
+      rcases this with (h | h) | h
+      · rw [hx] at h; exact absurd h (by decide)
+      · rw [hnd] at h; exact absurd h (by decide)
+      · exact h z hxz
+    rcases List.mem_cons.1 hy with rfl | hy'
+    · exact hx
+    · refine ih z hzS hp.2 ?_ y hy'
+      intro m hm
+      exact hd m (by simp only [List.dropLast_cons_cons]; exact List.mem_cons_of_mem _ hm)
+
+/-- accepted by `okFromP` → every path from `a` to a `bad` node passes a barrier node in between -/
+theorem okFromP_sound {g : Graph} {bar bad : Nat → Bool} {a : Nat} (h : okFromP g bar bad a = true)
+    (mid : List Nat) (r : Nat) (hp : IsPath g (a :: (mid ++ [r]))) (hr : bad r = true)
+    (hlt : r < g.size) : ∃ m ∈ mid, bar m = true := by
+  apply Classical.byContradiction
+  intro hno
+  have hno' : ∀ m ∈ mid, bar m = false := fun m hm => by
+    cases hb : bar m with
+    | false => rfl
+    | true => exact absurd ⟨m, hm, hb⟩ hno
+  simp only [okFromP, Bool.and_eq_true] at h
+  obtain ⟨⟨hs, hc⟩, hb⟩ := h
+  generalize closureP g bar (fuelFor g) (node g a).succ (Array.replicate g.size false) = S at hs hc hb
+  have hrS : S.has r = true := by
+    cases mid with
+    | nil =>
+      have : r ∈ (node g a).succ := hp.1
+      exact List.all_eq_true.1 hs r this
+    | cons x mid' =>
+      have hx : x ∈ (node g a).succ := hp.1
+      have hxS : S.has x = true := List.all_eq_true.1 hs x hx
+      have hp' : IsPath g (x :: (mid' ++ [r])) := IsPath.tail hp
+      refine walk_closedP hc (mid' ++ [r]) x hxS hp' ?_ r (by simp)
+      intro m hm
+      have : (x :: (mid' ++ [r])).dropLast = x :: mid' := by
+        rw [← List.cons_append, List.dropLast_concat]
+      rw [this] at hm
+      exact hno' m hm
+  have := List.all_eq_true.1 hb r (List.mem_range.2 hlt)
+  simp only [Bool.or_eq_true, Bool.not_eq_true'] at this
+  rcases this with h | h
+  · rw [hrS] at h; exact absurd h (by decide)
+  · rw [hr] at h; exact absurd h (by decide)
+
+/-- **soundness on the graph**: after a node hands `v` to a call, on every path, `v` is assigned as
+    a whole before any node reads, drops, moves, passes or returns it -/
+theorem argsOk_sound {g : Graph} (h : argsOk g = true) (v a : Nat) (mid : List Nat) (r : Nat)
+    (hp : IsPath g (a :: (mid ++ [r]))) (ha : v ∈ (node g a).hands) (hr : v ∈ (node g r).uses) :
+    ∃ m ∈ mid, v ∈ (node g m).defs := by
+  have h1 := List.all_eq_true.1 h a (List.mem_range.2 (lt_of_hands ha))
+  have h2 : argOk g v a = true := List.all_eq_true.1 h1 v ha
+  obtain ⟨m, hm, hb⟩ := okFromP_sound h2 mid r hp
+    (by simpa only [List.contains_iff_mem] using hr) (lt_of_uses hr)
+  exact ⟨m, hm, by simpa only [List.contains_iff_mem] using hb⟩
+
+
 instance decIsPath (g : Graph) : (l : List Nat) → Decidable (IsPath g l)
   | [] => isTrue trivial
   | [_] => isTrue trivial
@@ -146,5 +231,16 @@ def wOnVariable : Item := ⟨[
   ⟨0, [.assign ⟨2, []⟩ (.discr 0)], .switch 2 [(0, 1)] none⟩,
   ⟨1, [.assign ⟨3, []⟩ (.clone ⟨0, [.vfield 0 0]⟩), .assign ⟨0, []⟩ .lit], .jump 2⟩,
   ⟨2, [.assign ⟨4, []⟩ (.clone ⟨0, [.vfield 0 0]⟩)], .ret 4⟩]⟩
+
+/-- a loop that calls `f` with a copy of `x`: `$1 = clone(x); $2 = f($1); $3 = discriminant($2);
+    switch $3 [0 → again] else out; out: $4 = clone(x); return $4` — nodes 0 … 5 -/
+def wArgCopy : Item := ⟨[
+  ⟨0, [.assign ⟨1, []⟩ (.clone ⟨0, []⟩), .assign ⟨2, []⟩ (.call [1] [1]), .assign ⟨3, []⟩ (.discr 2)],
+    .switch 3 [(0, 0)] (some 1)⟩,
+  ⟨1, [.assign ⟨4, []⟩ (.clone ⟨0, []⟩)], .ret 4⟩]⟩
+
+/-- `x` itself handed to the callee, then read: `$2 = f(x); $3 = clone(x.0); return $3` -/
+def wArgItself : Item := ⟨[
+  ⟨0, [.assign ⟨2, []⟩ (.call [0] [0]), .assign ⟨3, []⟩ (.clone ⟨0, [.field 0]⟩)], .ret 3⟩]⟩
 
 end RotoV.ValueMir
